@@ -28,6 +28,10 @@ def shapes():
     sh.append(("sameNameImported", [{"path": ["ops", "s10", "a.graphql"],
                                      "doc": {"defs": [G.imp([".", "lib", "f.graphql"], ["Thing"]), G.op("Thing", [G.field("a"), G.spread("Thing")])]}},
                                     {"path": ["ops", "s10", "lib", "f.graphql"], "doc": {"defs": [G.frag("Thing", [G.field("b")])]}}]))
+    # file names with more than one dot, two of them sharing the part before the first dot (each file has a declaration file of its own)
+    sh.append(("dottedSibling", [{"path": ["ops", "s11", "user.graphql"], "doc": {"defs": [G.frag("UserFields", [G.field("a")])]}},
+                                 {"path": ["ops", "s11", "user.queries.graphql"], "doc": {"defs": [G.op("getUser", [G.field("b", None, [G.arg("x", G.v_int("1"))])])]}}]))
+    sh.append(("dottedRoot", [{"path": ["ops", "s12", "list.items.v2.graphql"], "doc": {"defs": [G.op("listItems", [G.field("a")])]}}]))
     return [{"name": n, "files": fs, "root": fs[0]["path"]} for n, fs in sh]
 
 
@@ -85,7 +89,7 @@ def run(ctx, res):
     res.rule = ("Spec->impl: Gen_C14 enumerates the full product of mode x defaultExportForOperation x capitalizeOperationNames x "
                 "{query,mutation,subscription,fragment}VariableSuffix in {unset,'','Doc'} (x exported result/variables types in "
                 "thorough): %d configurations, each applied to %d operation-file shapes (named / anonymous / two operations / "
-                "operation + lower- and upper-case fragments / fragments only / imported fragment / subscription / an operation and a local or imported fragment with the same name). The real CLI "
+                "operation + lower- and upper-case fragments / fragments only / imported fragment / subscription / an operation and a local or imported fragment with the same name / file names with several dots). The real CLI "
                 "writes the declaration files, the real loader ABI emits the module from the same configuration text (every second time on an instance "
                 "that loaded another configuration and emitted under it before, the task overlapping with two tasks of other files); impl->spec: "
                 "Trace_C14 evaluates Exports!ExportItems (names subset, default present, same definition - via the source-map "
